@@ -59,7 +59,21 @@ Case(s, e) ==
 InDomain(s, e) == /\ e.call = "edit" /\ e.outcome = "ok" /\ e.law /\ e.tk.ok
                   /\ SyncDomain(s, e) /\ WellFormed(s, e)
 
-Clauses(s, e) == IF InDomain(s, e) THEN TL!TokenClauses(Case(s, e)) ELSE {}
+(* (G) events replayed from the case table of TokenGen.tla carry the lines the  *)
+(* reference editor expects (e.g.expect, concretised with the same line table) *)
+(* RefEdit.agree: the non-blank lines of the result are exactly those; for an  *)
+(* insertion - whose position among the comments the documentation leaves open *)
+(* - the same with the new line taken out                                       *)
+NonBlankIds(seq) == SelectSeq(seq, LAMBDA x : ~Batch.ltab[x].b)
+Without(seq, x)  == SelectSeq(seq, LAMBDA y : y # x)
+RefAgree(e) ==
+  LET got == NonBlankIds(Streams[e.tk.post].ln)
+      exp == NonBlankIds(e.g.expect)
+  IN IF e.g.op = "insert" THEN Without(got, e.g.newline) = Without(exp, e.g.newline) /\ Len(got) = Len(exp)
+     ELSE got = exp
+GenClauses(s, e) == IF "g" \in DOMAIN e /\ e.outcome = "ok" /\ e.tk.ok THEN {Cl("RefEdit.agree", RefAgree(e))} ELSE {}
+
+Clauses(s, e) == IF InDomain(s, e) THEN TL!TokenClauses(Case(s, e)) \cup GenClauses(s, e) ELSE {}
 ClassOf(s, e) == IF InDomain(s, e) THEN EditClass(s, e) \o TL!LostClass(Case(s, e)) ELSE "?"
 
 Init == /\ tid \in 1..Len(Traces)
